@@ -2,15 +2,12 @@
     harness/src/cfgstate.rs).  [run_case] is shared by C05, C06 and C07. *)
 From stdpp Require Import gmap strings.
 From Coq Require Import NArith ZArith String.
-From SV Require Import Common.Tok CfgState.Model CfgState.Gen.
+From SV Require Import Common.Tok CfgState.Model CfgState.Gen CfgState.GenSteps.
 Open Scope string_scope.
 Open Scope list_scope.
 Open Scope N_scope.
 
 Infix "=s" := String.eqb (at level 70).
-
-Definition steps_of (k : lkind) : list step :=
-  match k with LHttp => steps_http | LHttps => steps_https | LTcp => steps_tcp | LUdp => steps_udp end.
 
 Record rstate := RS {
   cur : state;
